@@ -260,6 +260,10 @@ class SetAlg:
             return f_or(*[self.member(e, x[1]) if x[0] == "star" else self.eq_atom(e, x) for x in t[1]])
         if h == "concat":
             return f_or(self.member(e, t[1]), self.member(e, t[2]))
+        if h == "slice":
+            z = self._zone(e, t)
+            if z is not None:
+                return z
         if h in ("slice", "slice3"):
             # a slice selects some of the sequence's elements: membership implies membership in the sequence
             return f_and(self.member(e, t[1]), ("atom", ("in", e, self.canon_opaque(t))))
@@ -284,6 +288,35 @@ class SetAlg:
             # functional reading of effects is the evaluator's job; unknown effects stay atoms
             pass
         return ("atom", ("in", e, self.canon_opaque(t)))
+
+    def _zone(self, e: Term, t: Term) -> Formula | None:
+        """Order zones: for a sequence π without repeats and i = π.index(v),
+        π[:i] = {x ∈ π : x before v},  π[:i+1] adds v,  π[i:] = {x ∈ π : not before v},  π[i+1:] removes v from that."""
+        base, lo, hi = t[1], t[2], t[3]
+        b0 = self.strip(base)
+
+        def pos(b):
+            if b == NONE:
+                return None
+            off = 0
+            if b[0] == "op" and b[1] == "+" and b[3][0] == "const" and isinstance(b[3][1], int):
+                b, off = b[2], b[3][1]
+            if b[0] == "meth" and b[2] == "index" and len(b[3]) == 1 and self.strip(b[1]) == b0:
+                return b[3][0], off
+            return False
+
+        pl, ph_ = pos(lo), pos(hi)
+        if pl is False or ph_ is False or (pl is None and ph_ is None) or (pl is not None and ph_ is not None):
+            return None
+        v, off = pl if pl is not None else ph_
+        if off not in (0, 1):
+            return None
+        before = ("atom", ("before", self.canon(e), self.canon(v), self.canon(b0)))
+        same = self.eq_atom(e, v)
+        inb = self.member(e, base)
+        if pl is None:  # π[:i+off]
+            return f_and(inb, before if off == 0 else f_or(before, same))
+        return f_and(inb, f_not(before) if off == 0 else f_and(f_not(before), f_not(same)))
 
     def union_parts(self, t: Term) -> list[Term]:
         """Flatten unions, accumulations and nested big unions into parts.
@@ -422,6 +455,10 @@ class SetAlg:
             return f_or(*[self.cond(x) for x in c[1:]])
         if h == "in":
             return self.member(c[1], c[2])
+        if h in ("eq", "ne", "lt", "le") and len(c) == 3:
+            z = self._len_cond(h, c[1], c[2])
+            if z is not None:
+                return z
         if h in ("eq", "ne") and self._is_boolean(c[1]) and self._is_boolean(c[2]):
             # equality of two truth values is their equivalence
             a_, b_ = self.cond(c[1]), self.cond(c[2])
@@ -472,6 +509,51 @@ class SetAlg:
                     parts.append(body)
                 return f_or(*parts) if h == "any" else f_and(*parts)
         return ("atom", self.canon(c))
+
+    def _len_cond(self, h: str, a: Term, b: Term) -> Formula | None:
+        """Comparisons of len(X) with 0, 1, 2 over the partition {empty, exactly one, two or more}: `len(X) == 0`, `not X`, `len(X) < 1`
+        are one condition; so are `len(X) <= 1` and `len(X) == 0 or len(X) == 1`."""
+        def is_len(t):
+            return t[0] == "len" or (t[0] == "call" and t[1] == "len" and len(t[2]) == 1)
+
+        def arg(t):
+            return t[1] if t[0] == "len" else t[2][0]
+
+        if is_len(a) and b[0] == "const" and isinstance(b[1], int) and not isinstance(b[1], bool):
+            X, k, side = arg(a), b[1], "left"
+        elif is_len(b) and a[0] == "const" and isinstance(a[1], int) and not isinstance(a[1], bool):
+            X, k, side = arg(b), a[1], "right"
+        else:
+            return None
+        if not 0 <= k <= 2:
+            return None
+        nonempty = self.cond(("truth", X))
+        one = f_and(nonempty, ("atom", ("len1", self.canon_set(X))))
+        empty = f_not(nonempty)
+        many = f_and(nonempty, f_not(("atom", ("len1", self.canon_set(X)))))
+        cells = {0: empty, 1: one, 2: many}  # 2 stands for ">= 2"
+
+        def sat(n):  # does len == n (n = 2 meaning any value >= 2) satisfy the comparison?  None = depends
+            if h == "eq":
+                return (n == k) if n < 2 or k < 2 else None
+            if h == "ne":
+                return (n != k) if n < 2 or k < 2 else None
+            if side == "left":   # len OP k
+                if h == "lt":
+                    return (n < k) if n < 2 else (False if k <= 2 else None)
+                return (n <= k) if n < 2 else (False if k < 2 else None)
+            # k OP len
+            if h == "lt":
+                return (k < n) if n < 2 else (True if k < 2 else None)
+            return (k <= n) if n < 2 else True
+        parts = []
+        for n, fml in cells.items():
+            r = sat(n)
+            if r is None:
+                return None
+            if r:
+                parts.append(fml)
+        return f_or(*parts) if parts else False
 
     def _is_boolean(self, t: Term) -> bool:
         return t[0] in ("isinstance", "in", "not", "and", "or", "truth", "any", "all", "isnone", "lt", "le", "subset", "psubset", "disjoint") or (
